@@ -49,6 +49,9 @@ func TestZZVerifEmitCL(t *testing.T) {
 		fmt.Fprintf(&src, "func clslice__arrptr__%s__i(p *[10]int64, i %s) []int64 { return p[i:] }\n", T, T)
 		fmt.Fprintf(&src, "func clslice__arrptr__%s__j(p *[10]int64, j %s) []int64 { return p[:j] }\n", T, T)
 		fmt.Fprintf(&src, "func clslice__arrptr__%s__ijk(p *[10]int64, i, j, k %s) []int64 { return p[i:j:k] }\n", T, T)
+		// make(chan T, n) / make(map[K]V, n) with a size operand of every integer type
+		fmt.Fprintf(&src, "func clmake__chan__%s__n(n %s) chan int64 { return make(chan int64, n) }\n", T, T)
+		fmt.Fprintf(&src, "func clmake__map__%s__n(n %s) map[int64]int64 { return make(map[int64]int64, n) }\n", T, T)
 	}
 	src.WriteString("func clslice__arrptr__int__full(p *[10]int64) []int64 { return p[:] }\n")
 
@@ -81,10 +84,10 @@ func TestZZVerifEmitCL(t *testing.T) {
 	in := false
 	n := 0
 	for _, line := range strings.Split(ret.String(), "\n") {
-		if strings.HasPrefix(line, "define ") && strings.Contains(line, "zzcl.clslice__") {
+		if strings.HasPrefix(line, "define ") && (strings.Contains(line, "zzcl.clslice__") || strings.Contains(line, "zzcl.clmake__")) {
 			in = true
 			n++
-			line = strings.Replace(line, "zzcl.clslice__", "clslice__", 1)
+			line = strings.Replace(strings.Replace(line, "zzcl.clslice__", "clslice__", 1), "zzcl.clmake__", "clmake__", 1)
 		}
 		if in {
 			sb.WriteString(line + "\n")
